@@ -215,6 +215,8 @@ NeverBlocksSender(cfg, obs) == (cfg.kind = "New" /\ obs.quiet /\ ~obs.cancelled 
 LosslessAfterCancel(cfg, obs) == (cfg.kind = "New" /\ obs.cancelled /\ obs.seen["out"]) => IsPrefix(obs.sentAtCancel[1], obs.got["out"])
 \* once cancelled, or closed by the sender, a receiver that waits is never left waiting (it gets the backlog, then the close)
 NewSettle(cfg, obs) == cfg.kind = "New" => ~(obs.quiet /\ (obs.cancelled \/ obs.closed[1]) /\ obs.pend[1] = <<>> /\ obs.rp["out"])
+\* a receiver that waits is handed what has been sent: at rest, with the receiver waiting, nothing whose send completed is undelivered
+NewDelivers(cfg, obs) == (cfg.kind = "New" /\ obs.quiet /\ obs.rp["out"]) => Len(obs.got["out"]) = Len(obs.sent[1])
 \* (the clean end of stream after close-by-sender is Complete + Settle1 + NoPanic)
 
 (* ==================================================================================== C11 Unfold / Emit *)
@@ -259,7 +261,8 @@ GenSettle(cfg, obs) ==
      /\ \E j \in 1..Len(obs.calls) : obs.calls[j].x \in cfg.fail) => AllSeen(obs) /\ obs.live = 0
 
 (* ==================================================================================== C12 Join *)
-FromInput(v, i) == v \div 100 = i
+\* (the value 0 - the zero value of the element type, offered in place of the first value of the first input - belongs to input 1)
+FromInput(v, i) == v \div 100 = i \/ (v = 0 /\ i = 1)
 \* (an input channel handed to Join twice - cfg.dup - is read by two forwarders: its elements still arrive once each, but the
 \*  statement's "original relative order" is about distinct inputs, so the order clause is not applied to such a channel)
 JoinPerInput(cfg, obs) ==
@@ -299,7 +302,7 @@ Verdicts(cfg, obs) ==
    NoEarlyClose |-> NoEarlyClose(cfg, obs), NoStall |-> NoStall(cfg, obs), DoneMeansDone |-> DoneMeansDone(cfg, obs),
    Settle1 |-> Settle1(cfg, obs), Settle2 |-> Settle2(cfg, obs), LiftCloses |-> LiftCloses(cfg, obs),
    PipePrefix |-> PipePrefix(cfg, obs), PipeComplete |-> PipeComplete(cfg, obs), PipeSettle |-> PipeSettle(cfg, obs), PipeGen |-> PipeGen(cfg, obs),
-   NeverBlocksSender |-> NeverBlocksSender(cfg, obs), LosslessAfterCancel |-> LosslessAfterCancel(cfg, obs), NewSettle |-> NewSettle(cfg, obs),
+   NeverBlocksSender |-> NeverBlocksSender(cfg, obs), LosslessAfterCancel |-> LosslessAfterCancel(cfg, obs), NewSettle |-> NewSettle(cfg, obs), NewDelivers |-> NewDelivers(cfg, obs),
    GenExact |-> GenExact(cfg, obs), GenStops |-> GenStops(cfg, obs), GenNoEarlyClose |-> GenNoEarlyClose(cfg, obs), EmitPaced |-> EmitPaced(cfg, obs), EmitKeepUp |-> EmitKeepUp(cfg, obs), GenSettle |-> GenSettle(cfg, obs),
    JoinPerInput |-> JoinPerInput(cfg, obs), JoinNothingInvented |-> JoinNothingInvented(cfg, obs), JoinComplete |-> JoinComplete(cfg, obs),
    ThrottleWindow |-> ThrottleWindow(cfg, obs), ThrottlePaced |-> ThrottlePaced(cfg, obs)]
@@ -316,6 +319,7 @@ Exercised(cfg, obs) ==
             TakeBound |-> cfg.kind = "Take" /\ obs.sent[1] # <<>>,
             FoldRes |-> cfg.kind = "Fold" /\ obs.got["res"] # <<>>,
             NeverBlocksSender |-> cfg.kind = "New" /\ obs.quiet /\ ~obs.cancelled /\ ~obs.closed[1] /\ obs.sent[1] # <<>>,
+            NewDelivers |-> cfg.kind = "New" /\ obs.quiet /\ obs.rp["out"] /\ obs.sent[1] # <<>>,
             LosslessAfterCancel |-> cfg.kind = "New" /\ obs.cancelled /\ obs.seen["out"] /\ obs.sentAtCancel[1] # <<>>,
             GenStops |-> cfg.kind \in {"Emit", "Unfold"} /\ obs.cancelled /\ \E o \in obs.outs : Len(obs.got[o]) > obs.gotAtCancel[o],
             EmitPaced |-> cfg.kind = "Emit" /\ Len(obs.calls) >= 2,
